@@ -10,6 +10,7 @@
 (*             just accepted, and the real store must take it                                            *)
 (*   done      validateContents returned                               -> Finish / the batch's error     *)
 (*   obs       the full projected state as a reader sees it            -> BeaconStore's read operators   *)
+(*   api       the same universe read through the network's own getters (for what the store holds)       *)
 (*   restart   the store is closed and reopened                                                          *)
 (* Monitor mode: a mismatch is recorded as <<line, what>> and the replay continues from the              *)
 (* specification's state (with the pointer variables forced where the real run went another way).        *)
@@ -76,6 +77,13 @@ TNext ==
             /\ UNCHANGED <<boot, upd, hs, open, nops, acc, rej, nb, viol>>
        [] e.ev = "obs" ->
             /\ viol' = viol \cup {<<l, f>> : f \in Failed(Obs(e))}
+            /\ UNCHANGED <<StoreVars, Ptr>>
+       [] e.ev = "api" ->           \* the network's getters return exactly what the store holds (object encoding = stored bytes less the digest)
+            /\ viol' = viol \cup {<<l, f>> : f \in Failed(
+                  [ apiBootstrap  |-> e.boot = e.bootBody,
+                    apiFinality   |-> e.fin = e.finBody,
+                    apiOptimistic |-> e.opt = e.optBody,
+                    apiRange      |-> \A j \in 1..Len(e.upd) : e.upd[j].api = e.upd[j].body ])}
             /\ UNCHANGED <<StoreVars, Ptr>>
        [] OTHER -> UNCHANGED <<StoreVars, Ptr, viol>>
 
